@@ -21,6 +21,14 @@ Definition checked_add (a b : N) : option N := if a + b <=? BLOCK_MAX then Some 
 (* BlockSize::checked_sub :395 *)
 Definition checked_sub (a b : N) : option N := if b <=? a then Some (a - b) else None.
 
+(* the optional block types other than PADDING (OptionalBlockType :341) *)
+Inductive okind := KApplication | KSeekTable | KVorbisComment | KCuesheet | KPicture.
+Definition type_code (k : okind) : N :=
+  match k with
+  | KApplication => TY_APPLICATION | KSeekTable => TY_SEEKTABLE | KVorbisComment => TY_VORBISCOMMENT
+  | KCuesheet => TY_CUESHEET | KPicture => TY_PICTURE
+  end.
+
 Section Model.
   Variable payload : Type.
   (* body size in bytes as MetadataBlock::bytes() reports it (bits::<BlockBits>() / 8); a body too
@@ -30,22 +38,22 @@ Section Model.
   Variable ser : payload -> list N.
   (* "only once" class of write_blocks :930-973 — Some 0 SEEKTABLE, Some 1 VORBIS_COMMENT,
      Some 2 PICTURE/Png32x32, Some 3 PICTURE/GeneralFileIcon, None otherwise *)
-  Variable uclass : N -> payload -> option N.
+  Variable uclass : okind -> payload -> option N.
 
   (* private::OptionalBlock :4793 — PADDING kept apart because update_file rewrites its size *)
   Inductive oblock :=
   | OPadding (n : N)
-  | OOther (ty : N) (p : payload).
+  | OOther (k : okind) (p : payload).
 
   (* BlockList :4358 — STREAMINFO is structurally first and unique *)
   Record blocklist := { bl_si : payload; bl_blocks : list oblock }.
 
-  Definition otype (b : oblock) : N := match b with OPadding _ => TY_PADDING | OOther ty _ => ty end.
+  Definition otype (b : oblock) : N := match b with OPadding _ => TY_PADDING | OOther k _ => type_code k end.
   Definition osize (b : oblock) : N := match b with OPadding n => n | OOther _ p => psize p end.
   Definition obody (b : oblock) : list N :=
     match b with OPadding n => repeat 0 (N.to_nat n) (* Padding::to_writer :1826 w.pad(size*8) *)
                | OOther _ p => ser p end.
-  Definition oclass (b : oblock) : option N := match b with OPadding _ => None | OOther ty p => uclass ty p end.
+  Definition oclass (b : oblock) : option N := match b with OPadding _ => None | OOther k p => uclass k p end.
 
   (* BlockHeader::to_writer :257 — 1 bit last, 7 bits type, 24 bits size *)
   Definition header (last : bool) (ty size : N) : list N :=
@@ -208,10 +216,29 @@ Section Model.
     | e :: es => let '(f1, r) := update e file in
                  let '(fn, rs) := run_edits es f1 in (fn, r :: rs)
     end.
+  (* -------- vocabulary of the C10 statements *)
+  (* the size of the first PADDING, if any (BlockList::get::<Padding>) *)
+  Fixpoint first_padding (bs : list oblock) : option N :=
+    match bs with [] => None | OPadding n :: _ => Some n | _ :: r => first_padding r end.
+  Fixpoint set_first_padding (n' : N) (bs : list oblock) : list oblock :=
+    match bs with [] => [] | OPadding _ :: r => OPadding n' :: r | b :: r => b :: set_first_padding n' r end.
+  (* the block list with only the first PADDING's size replaced *)
+  Definition with_first_padding (n' : N) (bl : blocklist) : blocklist :=
+    {| bl_si := bl_si bl; bl_blocks := set_first_padding n' (bl_blocks bl) |}.
+  (* the file is some metadata followed by exactly `audio`, and reads as such *)
+  Definition file_inv (audio : list N) (file : list N) : Prop :=
+    exists meta bl, file = meta ++ audio /\ read_blocks (meta ++ audio) = Ok (bl, audio).
+  (* an edit that leaves STREAMINFO alone *)
+  Definition keeps_streaminfo (e : blocklist -> res blocklist) : Prop :=
+    forall bl bl1, e bl = Ok bl1 -> bl_si bl1 = bl_si bl.
+  (* decoding a file = reading the blocks, then whatever the frame decoder computes from STREAMINFO
+     and the bytes that follow the metadata *)
+  Definition decode_file (pcm : Type) (decode_frames : payload -> list N -> pcm) (file : list N) : option pcm :=
+    match read_blocks file with Ok (bl, rest) => Some (decode_frames (bl_si bl) rest) | _ => None end.
 End Model.
 
 Arguments OPadding {payload} n.
-Arguments OOther {payload} ty p.
+Arguments OOther {payload} k p.
 Arguments InPlace {payload} bl.
 Arguments Rebuild {payload} bl.
 
